@@ -173,6 +173,7 @@ func main() {
 			// phase 3: the holder stops taking turns; the others keep taking them round-fairly
 			stop := int(holder - 1)
 			took := -1
+			newHolder := uint64(0)
 			for rd := 1; rd <= takeoverBound+3; rd++ {
 				for _, i := range r.Perm(n) {
 					if i != stop {
@@ -192,7 +193,11 @@ func main() {
 				}
 				if took < 0 && leaders == 1 && inst != holder {
 					took = rd
+					newHolder = inst
 					run.Count(fmt.Sprintf("c14:takeover_in_round_%d", rd))
+				} else if took >= 0 && inst != newHolder {
+					fail("stable_under_renewal", "new-leader-replaced-while-renewing", fmt.Sprintf("server %d took over in round %d and renewed every round since, but the record now names %d", newHolder, took, inst))
+					newHolder = inst
 				}
 				if took >= 0 && (leaders != 1 || !vs[inst-1].leader) {
 					fail("bounded_takeover", "takeover-not-stable", "after the take-over the new leader did not stay the only leader")
